@@ -28,6 +28,26 @@ def job(name, cmd, flavour="plain", shards=16, timeout=900, **args):
             "args": args}
 
 
+ASAN_ENV = {"ASAN_OPTIONS": "detect_leaks=0:abort_on_error=1:halt_on_error=1:allocator_may_return_null=1"}
+TSAN_ENV = {"TSAN_OPTIONS": "halt_on_error=1 exitcode=66 second_deadlock_stack=1"}
+
+
+import miri_runner  # noqa: E402
+
+
+def miri_job(name, workloads, programs, schedules, shards=16, timeout=3300):
+    j = job(name, "miri", flavour="miri", shards=shards, timeout=timeout, workloads=workloads, programs=programs,
+            schedules=schedules)
+    j["runner"] = miri_runner.runner
+    return j
+
+
+def san_job(name, cmd, flavour, shards=16, timeout=3000, **args):
+    j = job(name, cmd, flavour=flavour, shards=shards, timeout=timeout, **args)
+    j["env"] = dict(ASAN_ENV if flavour == "asan" else TSAN_ENV)
+    return j
+
+
 # ------------------------------------------------------------------------------------------- C10
 REGISTRY["C10"] = {
     "level": "exploration",
@@ -183,7 +203,9 @@ REGISTRY["C19"] = {
         job("deep-context", "c19", flavour="release", shards=q(tier, 2, 16), timeout=1800, cases=q(tier, 1, 3),
             max_len=q(tier, 1000000, 1600000), deep=1),
     ] + ([job("index-release", "c19", flavour="release", shards=16, timeout=3000, cases=4000, max_len=100000,
-              max_bits=50000)] if tier == "thorough" else []),
+              max_bits=50000),
+          san_job("index-asan", "c19", "asan", cases=200, max_len=3000, max_bits=20000),
+          miri_job("miri", "text", programs=64, schedules=1)] if tier == "thorough" else []),
     "floors": lambda tier: {"distinct_nontrivial": 500, "docs": 500, "patterns": 100000, "bitvectors.rrr": 300,
                             "docs.invalid_division": 20},
 }
@@ -272,7 +294,9 @@ REGISTRY["C18"] = {
     "jobs": lambda tier: [
         job("sync", "c18", shards=16, timeout=1500, queue_runs=q(tier, 6, 150), waitlist_programs=q(tier, 150, 5000),
             lru_programs=q(tier, 400, 20000), full=1),
-    ],
+    ] + ([san_job("sync-asan", "c18", "asan", queue_runs=30, waitlist_programs=500, lru_programs=2000, full=1),
+          san_job("sync-tsan", "c18", "tsan", queue_runs=30, waitlist_programs=300, lru_programs=1000, full=0),
+          miri_job("miri", "lru", programs=16, schedules=8)] if tier == "thorough" else []),
     "floors": lambda tier: {"distinct_nontrivial": 2000, "queue.batches_of_2_or_more": 2000,
                             "waitlist.full_list_probes": 8, "lru.evictions": 10000, "waitlist.steps": 50000},
 }
@@ -294,7 +318,9 @@ REGISTRY["C17"] = {
     "assumptions": ["keys are distinct (the list asserts on duplicates)"],
     "jobs": lambda tier: [
         job("threads", "c17", shards=16, timeout=1500, runs=q(tier, 150, 5000), list_runs=q(tier, 40, 1000)),
-    ],
+    ] + ([san_job("threads-asan", "c17", "asan", runs=600, list_runs=150),
+          san_job("threads-tsan", "c17", "tsan", runs=400, list_runs=100),
+          miri_job("miri", "skiplist,list", programs=6, schedules=16)] if tier == "thorough" else []),
     "floors": lambda tier: {"distinct_nontrivial": 500, "skiplist.observations_of_partial_state": 20000,
                             "list.observations_of_partial_state": 300,
                             "skiplist.iterator_outlives_list_probes": 500},
@@ -383,7 +409,11 @@ def _e1(prop, technique, level_text, rule_tail, floors, quick_h=10):
         "jobs": (lambda p, qh: (lambda tier: _e1_jobs(p, tier, quick_h=qh) + (
             [_e2_job(p, tier, name="crash-images", faults=0, second=0)] if p in ("C04", "C08") else []) + (
             [_e3_job(p, tier)] if p in ("C04", "C07") else []) + (
-            [job("tamper", "c04t", shards=16, timeout=3000, cases=q(tier, 3, 60), budget=q(tier, 250, 3000))] if p == "C04" else [])))(prop, quick_h),
+            [san_job("threads-asan", "e3", "asan", focus="C07", runs=60, scale=1),
+             san_job("threads-tsan", "e3", "tsan", focus="C07", runs=40, scale=1),
+             san_job("stepper-asan", "e1", "asan", focus="C07", histories=40, steps=120)] if p == "C07" and tier == "thorough" else []) + (
+            [job("tamper", "c04t", shards=16, timeout=3000, cases=q(tier, 3, 60), budget=q(tier, 250, 3000))] if p == "C04" else []) + (
+            [job("collector", "c05gc", shards=16, timeout=3000, max_len=q(tier, 8, 12), random=q(tier, 2000, 300000))] if p == "C05" else [])))(prop, quick_h),
         "floors": floors,
     }
 
@@ -422,7 +452,7 @@ _e1("C05",
     "Exploration: every compaction the selector chooses in the generated histories (4 KiB target/minimum file size, 1-3 KiB values, a hot key with many versions so versions straddle output files).",
     "Non-trivial = history with a compaction of >=2 inputs; distinct = hash of the step list.",
     lambda tier: {"distinct_nontrivial": 40, "c05.compactions_with_2plus_inputs": 60, "c05.gc_with_nonempty_discard": 5,
-                  "c05.compactions_with_2plus_outputs": 10},
+                  "c05.compactions_with_2plus_outputs": 10, "collections_that_drop_something": 50000},
     quick_h=12)
 
 _e1("C07",
@@ -482,7 +512,8 @@ REGISTRY["C06"] = {
     "rule": E3_RULE + ("Non-trivial = run with >=10 writes, >=5 operations overlapping an operation of another thread and "
                        ">=1 flush; distinct = hash of the recorded stamps."),
     "assumptions": ["the linearization point of a scan lies inside the range_scan() call that created its cursor"],
-    "jobs": lambda tier: [_e3_job("C06", tier)],
+    "jobs": lambda tier: [_e3_job("C06", tier)] + ([san_job("threads-tsan", "e3", "tsan", focus="C06", runs=40, scale=1),
+                                                    san_job("threads-asan", "e3", "asan", focus="C06", runs=40, scale=1)] if tier == "thorough" else []),
     "floors": lambda tier: {"distinct_nontrivial": 60, "lin.operations_overlapping_another_thread": 10000,
                             "lin.rounds_checked": 1500, "ops.batch": 2000, "ops.scan": 1000, "store.flushes": 500,
                             "store.compactions": 1000},
@@ -541,7 +572,9 @@ REGISTRY["C09"] = {
             mani_cases=q(tier, 24, 1500), store_cases=q(tier, 4, 200), budget=q(tier, 600, 3000),
             store_budget=q(tier, 300, 1500)),
     ] + ([job("files-release", "c09", flavour="release", shards=16, timeout=3000, sst_cases=1500, log_cases=1500,
-              mani_cases=1500, store_cases=200, budget=3000, store_budget=1500)] if tier == "thorough" else []),
+              mani_cases=1500, store_cases=200, budget=3000, store_budget=1500),
+          san_job("files-asan", "c09", "asan", sst_cases=60, log_cases=60, mani_cases=60, store_cases=6, budget=600,
+                  store_budget=300)] if tier == "thorough" else []),
     "floors": lambda tier: {"distinct_nontrivial": 500, "sst.damages.final-block": 50000, "sst.damages.index-block": 50000,
                             "sst.damages.filter-block": 50000, "sst.damages.data-blocks": 50000,
                             "log.damages.kind.flip": 50000, "mani.damages.kind.flip": 50000,
@@ -549,3 +582,16 @@ REGISTRY["C09"] = {
                             "store.damages.sst": 3000, "store.damages.log": 300, "store.damages.manifest": 300,
                             "store.verifier_runs": 1000},
 }
+
+
+# ------------------------------------------------------------------ ASan re-runs of the pure-input checks
+def _with_asan(prop, name, cmd, **args):
+    inner = REGISTRY[prop]["jobs"]
+    REGISTRY[prop]["jobs"] = (lambda inner: (lambda tier: inner(tier) + (
+        [san_job(name, cmd, "asan", **args)] if tier == "thorough" else [])))(inner)
+
+
+_with_asan("C10", "tables-asan", "c10", cases=3000, prog=40)
+_with_asan("C11", "combinators-asan", "c11", cases=6000, prog=40)
+_with_asan("C15", "codec-asan", "c15", cases=20000)
+_with_asan("C16", "pairs-asan", "c16", cases=100000)
